@@ -19,10 +19,10 @@ Hex2(v) == LET d(x) == IF x < 10 THEN 48 + x ELSE 87 + x IN <<d(v \div 16), d(v 
 Hex4(v) == Hex2(v \div 256) \o Hex2(v % 256)
 StrAtoms(qq) ==
   { <<97>>, <<32>>, <<IF qq = 34 THEN 39 ELSE 34>>, <<195, 169>>, <<240, 159, 152, 128>>, <<226, 128, 168>>,
-    <<92, 110>>, <<92, 116>>, <<92, 92>>, <<92, 39>>, <<92, 34>>, <<92, 96>>, <<92, 48>>, <<92, 97>>, <<92, 47>>,
+    <<49>>, <<92, 110>>, <<92, 116>>, <<92, 92>>, <<92, 39>>, <<92, 34>>, <<92, 96>>, <<92, 48>>, <<92, 97>>, <<92, 47>>,
     <<92, 10>>, <<92, 13, 10>>, <<92, 49>>, <<92, 49, 48, 49>>, <<92, 51, 55, 55>> }
-  \cup {<<92, 120>> \o Hex2(v) : v \in {0, 10, 34, 39, 65, 92, 96, 127, 128, 233, 255}}
-  \cup {<<92, 117>> \o Hex4(v) : v \in {0, 10, 34, 65, 92, 233, 8232, 55357, 56832, 65535}}
+  \cup {<<92, 120>> \o Hex2(v) : v \in {0, 10, 34, 39, 49, 65, 92, 96, 127, 128, 233, 255}}
+  \cup {<<92, 117>> \o Hex4(v) : v \in {0, 10, 34, 55, 65, 92, 233, 8232, 55357, 56832, 65535}}
   \cup {<<92, 117, 123>> \o ds \o <<125>> : ds \in {<<48>>, <<52, 49>>, <<48, 48, 48, 48, 52, 49>>, <<49, 70, 54, 48, 48>>,
                                                    <<49, 48, 70, 70, 70, 70>>, <<68, 56, 48, 48>>, <<50, 50>>, <<48, 48, 48, 48, 48, 48, 52, 49>>}}
 RawAtoms == { <<97>>, <<32>>, <<10>>, <<13, 10>>, <<32, 32, 10>>, <<92, 96>>, <<92, 92>>, <<39>>, <<34>>, <<36>>, <<123>>,
